@@ -44,6 +44,135 @@ func hiddenSnapshot(src afero.Fs, re *regexp.Regexp) map[string]string {
 	return out
 }
 
+// c13IOFSList: the filtered filesystem seen through the io/fs adapter (afero.NewIOFS), over sources whose directory
+// handles are of different kinds (mem.File, UnionFile of a copy-on-write or caching filesystem, BasePathFile, …):
+// fs.ReadDir, ReadDir(n) on an opened directory (all at once and one by one) and fs.WalkDir show exactly the
+// directories and the matching files.
+func c13IOFSList(kind, pid string) string {
+	re := c13Patterns[pid]
+	// io/fs names are unrooted: the tree is built under such names (MemMapFs keeps "d/x" and "/d/x" apart)
+	files := []string{"d/a.txt", "d/b.dat", "d/secret.bin", "d/sub/abc", "d/sub/note.txt", "d/sub/x9", "top.txt", "zeta"}
+	build := func(fsys afero.Fs, prefix string) {
+		for _, f := range files {
+			fsys.MkdirAll(filepath.Dir(prefix+f), 0o755)
+			afero.WriteFile(fsys, prefix+f, []byte("content of "+f), 0o644)
+		}
+		fsys.MkdirAll(prefix+"d/emptydir", 0o755)
+	}
+	base := afero.NewMemMapFs()
+	build(base, "")
+	var src afero.Fs = base
+	switch kind {
+	case "mem":
+	case "cow-base":
+		src = afero.NewCopyOnWriteFs(base, afero.NewMemMapFs())
+	case "cow-both": // something was written below every directory: they are opened as unions of both layers
+		cow := afero.NewCopyOnWriteFs(base, afero.NewMemMapFs())
+		for _, f := range []string{"d/c.txt", "d/late.bin", "d/sub/w.txt", "d/sub/hidden", "new.txt"} {
+			if err := afero.WriteFile(cow, f, []byte("written"), 0o644); err != nil {
+				return "fail: set-up: " + err.Error()
+			}
+			files = append(files, f)
+		}
+		src = cow
+	case "cache":
+		src = afero.NewCacheOnReadFs(base, afero.NewMemMapFs(), time.Hour)
+	case "bp":
+		b2 := afero.NewMemMapFs()
+		build(b2, "/jail/")
+		src = afero.NewBasePathFs(b2, "/jail")
+	case "ro":
+		src = afero.NewReadOnlyFs(base)
+	default:
+		return "bad-op"
+	}
+	iofs := afero.NewIOFS(afero.NewRegexpFs(src, re))
+	visible := func(dir string) []string { // dir: "" for the root, else "d", "d/sub", …
+		seen := map[string]bool{}
+		pre := dir
+		if pre != "" {
+			pre += "/"
+		}
+		for _, f := range files {
+			if !strings.HasPrefix(f, pre) {
+				continue
+			}
+			rest := strings.TrimPrefix(f, pre)
+			if i := strings.Index(rest, "/"); i >= 0 {
+				seen[rest[:i]] = true // a directory: never hidden
+			} else if re.MatchString(f) {
+				seen[rest] = true
+			}
+		}
+		if dir == "d" {
+			seen["emptydir"] = true
+		}
+		var out []string
+		for n := range seen {
+			out = append(out, n)
+		}
+		sort.Strings(out)
+		return out
+	}
+	names := func(es []iofsDirEntry) []string {
+		var out []string
+		for _, e := range es {
+			out = append(out, e.Name())
+		}
+		sort.Strings(out)
+		return out
+	}
+	for _, dir := range []string{"", "d", "d/sub", "d/emptydir"} {
+		want := strings.Join(visible(dir), ",")
+		name := dir
+		if name == "" {
+			name = "."
+		}
+		es, err := iofsReadDir(iofs, name)
+		if err != nil || strings.Join(names(es), ",") != want {
+			return fmt.Sprintf("fail: fs.ReadDir(%s) over %s lists [%s] (%v); the directories and matching files are [%s]", name, kind, strings.Join(names(es), ","), err, want)
+		}
+		f, err := iofs.Open(name)
+		if err != nil {
+			return fmt.Sprintf("fail: Open(%s): %v", name, err)
+		}
+		if rdf, ok := f.(iofsReadDirFile); ok {
+			var all []iofsDirEntry
+			// (a page of a filtered directory may come back short or empty without an error: paged until the end is reported)
+			for k := 0; k < 1000; k++ {
+				page, err := rdf.ReadDir(1)
+				all = append(all, page...)
+				if err != nil {
+					break
+				}
+			}
+			if strings.Join(names(all), ",") != want {
+				f.Close()
+				return fmt.Sprintf("fail: ReadDir(1) pages of %s over %s give [%s], want [%s]", name, kind, strings.Join(names(all), ","), want)
+			}
+		}
+		f.Close()
+	}
+	var walked []string
+	iofsWalkDir(iofs, ".", func(p string, isDir bool) {
+		if !isDir {
+			walked = append(walked, p)
+		}
+	})
+	sort.Strings(walked)
+	var wantFiles []string
+	for _, f := range files {
+		if re.MatchString(f) {
+			wantFiles = append(wantFiles, f)
+		}
+	}
+	sort.Strings(wantFiles)
+	if strings.Join(walked, ",") != strings.Join(wantFiles, ",") {
+		return fmt.Sprintf("fail: fs.WalkDir over %s visits the files %v, the matching files are %v", kind, walked, wantFiles)
+	}
+	return "ok"
+}
+
 func c13RunImpl(c corr.Case) []string {
 	var src afero.Fs
 	var re *regexp.Regexp
@@ -55,6 +184,8 @@ func c13RunImpl(c corr.Case) []string {
 		t := strings.Fields(line)
 		out = append(out, guard(func() string {
 			switch {
+			case t[0] == "iofs-list":
+				return c13IOFSList(t[1], t[2])
 			case t[0] == "case":
 				src = afero.NewMemMapFs()
 				re = c13Patterns[t[2]]
@@ -192,6 +323,11 @@ func c13RunImpl(c corr.Case) []string {
 
 func c13Oracle(c corr.Case, impl []string) (string, int) {
 	for i, line := range c.Lines {
+		if strings.HasPrefix(line, "iofs-list") && strings.HasPrefix(impl[i], "fail") {
+			return impl[i], i
+		}
+	}
+	for i, line := range c.Lines {
 		t := strings.Fields(line)
 		if impl[i] == "panic" {
 			return "call panics: " + t[0], i
@@ -271,6 +407,14 @@ func c13Exhaustive(tier string) []corr.Case {
 				fmt.Sprintf("openfile %s %d 420", h("/w/cache"), fl), "create "+h("/w/cache"), "stat "+h("/w/cache"), "chmod "+h("/w/cache")+" 384", "snapshot",
 				"mkdir "+h("/w/tmpdir")+" 493", "stat "+h("/w/tmpdir"), "remove "+h("/w/tmpdir"), "create "+h("/w/tmpdir"), "src.create "+h("/w/tmpdir"),
 				"stat "+h("/w/tmpdir"), "open "+h("/w/tmpdir"), "remove "+h("/w/tmpdir"), "open "+h("/w"), fmt.Sprintf("h.readdirnames %d -1", nh+1), "snapshot")
+			cases = append(cases, corr.Case{Lines: l})
+		}
+		// through the io/fs adapter, over sources whose directory handles are of different kinds
+		{
+			l := []string{"case re " + pid}
+			for _, k := range []string{"mem", "cow-base", "cow-both", "cache", "bp", "ro"} {
+				l = append(l, "iofs-list "+k+" "+pid)
+			}
 			cases = append(cases, corr.Case{Lines: l})
 		}
 		// listings with every page size
